@@ -9,7 +9,9 @@ package fstree
 // with optionally compressed members) over ~20 addresses per configuration, plus combined
 // files whose member boundaries are aimed at the borders of the readers' windows (opAligned)
 // and bursts of the same operations over a few "small" addresses whose on-disk length is
-// aimed at and below the length of the combined prefix (opSmall).
+// aimed at and below the length of the combined prefix (opSmall), and multi-block compressed
+// objects whose first zstd blocks end inside the readers' pre-read prefix, read with all CPUs
+// and with one CPU (opZframes).
 // Oracle: a Go map (address -> bytes last stored), written from the property statement.
 // Every read API must return exactly the model bytes (or the parts of them the API
 // documents) for a stored address and not-found for an absent one; every iteration must
@@ -25,6 +27,7 @@ import (
 	"os"
 	"path/filepath"
 	"regexp"
+	"runtime"
 	"runtime/debug"
 	"sort"
 	"strings"
@@ -51,10 +54,15 @@ type vf10Cfg struct {
 	Generic    bool   `json:"generic_writer"`
 	NoSync     bool   `json:"no_sync"`
 	IntervalMs int    `json:"combined_write_interval_ms"`
+	Procs      int    `json:"gomaxprocs,omitempty"` // 1: the whole case runs as on a single-CPU host; 0: as the process was started
 }
 
 func (c vf10Cfg) String() string {
-	return fmt.Sprintf("d%d/cnt%d/lim%d/thr%d/gen%v/nosync%v", c.Depth, c.CountLimit, c.SizeLimit, c.Threshold, c.Generic, c.NoSync)
+	s := fmt.Sprintf("d%d/cnt%d/lim%d/thr%d/gen%v/nosync%v", c.Depth, c.CountLimit, c.SizeLimit, c.Threshold, c.Generic, c.NoSync)
+	if c.Procs > 0 {
+		s += fmt.Sprintf("/procs%d", c.Procs)
+	}
+	return s
 }
 
 // vf10Item is one address of the universe with two alternative byte strings (the second
@@ -82,6 +90,9 @@ type vf10Case struct {
 	rng   *rand.Rand
 	arng  *rand.Rand // stream of the border-aligned combined files (opAligned)
 	srng  *rand.Rand // stream of the small-object bursts (genSmall, opSmall)
+	zrng  *rand.Rand // stream of the multi-block compressed objects (opZframes)
+	vsalt uint64     // mixed into the per-verification streams (second read of the same state)
+	zstep int        // opZframes runs at every zstep-th step
 	small []*vf10Item
 	bias  []*vf10Item // when set, random items are mostly taken from here
 	vseed uint64      // seed of the per-verification streams
@@ -135,28 +146,32 @@ func vf10Payload(rng *rand.Rand, n int) []byte {
 
 // vf10Build makes an object whose encoding has (as close as possible) the wanted total
 // length; hdrKind selects tiny / small / medium / maximal non-payload part.
-func vf10Build(rng *rand.Rand, addr oid.Address, hdrKind int, wantTotal int) ([]byte, int) {
-	mk := func(payloadLen int) (*object.Object, int) {
-		var obj *object.Object
-		if hdrKind == 0 { // tiny: ID only (plus payload)
-			obj = new(object.Object)
-			obj.SetID(addr.Object())
-		} else {
-			obj = verifkit.NewObject(rand.New(rand.NewPCG(1, uint64(hdrKind))), addr.Container(), verifkit.RandUser(rand.New(rand.NewPCG(2, 3))), 0)
-			obj.SetID(addr.Object())
-			obj.SetPayloadSize(uint64(payloadLen))
-			switch hdrKind {
-			case 2:
-				verifkit.AddAttr(obj, "k", string(bytes.Repeat([]byte{'a'}, 3000)))
-				verifkit.AddAttr(obj, "l", string(bytes.Repeat([]byte{'b'}, 900)))
-			case 3:
-				sig := neofscrypto.NewSignatureFromRawKey(neofscrypto.ECDSA_SHA512, bytes.Repeat([]byte{3}, neofscrypto.MaxVerificationScriptLength), bytes.Repeat([]byte{4}, neofscrypto.MaxInvocationScriptLength))
-				obj.SetSignature(&sig)
-				verifkit.AddAttr(obj, "attr", string(bytes.Repeat([]byte{'c'}, 16000)))
-			}
+// vf10MkObj makes a payload-less object for addr with a tiny (0: ID only), small, medium or
+// maximal (3) non-payload part that announces payloadLen; it returns it with its encoded length.
+func vf10MkObj(addr oid.Address, hdrKind int, payloadLen int) (*object.Object, int) {
+	var obj *object.Object
+	if hdrKind == 0 { // tiny: ID only (plus payload)
+		obj = new(object.Object)
+		obj.SetID(addr.Object())
+	} else {
+		obj = verifkit.NewObject(rand.New(rand.NewPCG(1, uint64(hdrKind))), addr.Container(), verifkit.RandUser(rand.New(rand.NewPCG(2, 3))), 0)
+		obj.SetID(addr.Object())
+		obj.SetPayloadSize(uint64(payloadLen))
+		switch hdrKind {
+		case 2:
+			verifkit.AddAttr(obj, "k", string(bytes.Repeat([]byte{'a'}, 3000)))
+			verifkit.AddAttr(obj, "l", string(bytes.Repeat([]byte{'b'}, 900)))
+		case 3:
+			sig := neofscrypto.NewSignatureFromRawKey(neofscrypto.ECDSA_SHA512, bytes.Repeat([]byte{3}, neofscrypto.MaxVerificationScriptLength), bytes.Repeat([]byte{4}, neofscrypto.MaxInvocationScriptLength))
+			obj.SetSignature(&sig)
+			verifkit.AddAttr(obj, "attr", string(bytes.Repeat([]byte{'c'}, 16000)))
 		}
-		return obj, len(obj.Marshal())
 	}
+	return obj, len(obj.Marshal())
+}
+
+func vf10Build(rng *rand.Rand, addr oid.Address, hdrKind int, wantTotal int) ([]byte, int) {
+	mk := func(payloadLen int) (*object.Object, int) { return vf10MkObj(addr, hdrKind, payloadLen) }
 	base, hdrLen := mk(0)
 	_ = base
 	p := wantTotal - hdrLen - 4
@@ -480,7 +495,7 @@ func (c *vf10Case) report(key, api string, addr oid.Address, what string) {
 		steps = steps[len(steps)-400:]
 	}
 	before := c.r.Violations()
-	c.r.Violation(key, fmt.Sprintf("cfg %s case %d step %d: %s(%s): %s (stored %d bytes, %d on disk)", c.cfg, c.idx, len(c.steps), api, addr, what, len(want), dl),
+	c.r.Violation(key, fmt.Sprintf("cfg %s case %d step %d: %s(%s): %s (stored %d bytes, %d on disk, GOMAXPROCS %d)", c.cfg, c.idx, len(c.steps), api, addr, what, len(want), dl, runtime.GOMAXPROCS(0)),
 		map[string]any{"case": c.idx, "cfg": c.cfg, "addr": addr.String(), "stored_len": len(want), "steps": steps})
 	if c.r.Violations() > before { // listed known findings do not stop the exploration of this case
 		c.bad = true
@@ -623,7 +638,7 @@ func (c *vf10Case) verify(addr oid.Address, full bool) {
 	// are verified after a step depends on which concurrent puts came to share a file
 	// (scheduling), and that must not shift the stream the history is drawn from.
 	ab := addr.Object()
-	vr := rand.New(rand.NewPCG(c.vseed^uint64(len(c.steps)), binary.LittleEndian.Uint64(ab[:8])))
+	vr := rand.New(rand.NewPCG(c.vseed^uint64(len(c.steps)), binary.LittleEndian.Uint64(ab[:8])^c.vsalt))
 	outcome := "absent"
 	if present {
 		outcome = "present"
@@ -1481,6 +1496,411 @@ func (c *vf10Case) opAligned() {
 	c.verifyIterations()
 }
 
+// ---- multi-block compressed objects ------------------------------------------------------
+//
+// The streaming readers (Head, GetStream, ReadObject, ReadHeader) pre-read the first
+// NonPayloadFieldsBufferLength bytes of what is on disk and, when that is a zstd frame,
+// hand the pre-read prefix plus the rest of the file to a streaming decoder.  How much of
+// the prefix the decoder has consumed when the API returns depends on where the blocks of
+// the frame end (a decoder reads whole blocks) and on how the decoder is scheduled (lazily,
+// block by block, when the process has one CPU; a bounded number of blocks ahead otherwise).
+// The seeded zstd files of the main universe are either incompressible/half-compressible
+// (the first block alone exceeds the prefix) or all zeros (the whole frame is tiny), so the
+// bytes of a SECOND block never lay inside the pre-read prefix.  opZframes stores objects
+// whose compressed form has a chosen length around and beyond the prefix length, a chosen
+// compressibility (2:1 .. 30:1, so the first 128 KiB block ends anywhere inside or beyond
+// the prefix) and a chosen block structure (one-shot encoding of three levels, or a frame of
+// many blocks), through the real Put/PutBatch and as members of hand-built combined
+// files, and reads them back through every API with all CPUs and with one CPU.
+//
+// Frames are kept to what a node's compressor produces in one respect: the first block
+// carries at least NonPayloadFieldsBufferLength decompressed bytes (the one-shot encoder
+// gives min(128 KiB, everything)); the readers take the header from the decoder's first
+// output and the statement does not promise anything about foreign frame layouts.
+
+var (
+	vf10EncMu sync.Mutex
+	vf10Encs  = map[zstd.EncoderLevel]*zstd.Encoder{}
+)
+
+func vf10EncOf(l zstd.EncoderLevel) *zstd.Encoder {
+	vf10EncMu.Lock()
+	defer vf10EncMu.Unlock()
+	if e, ok := vf10Encs[l]; ok {
+		return e
+	}
+	e, err := zstd.NewWriter(nil, zstd.WithEncoderLevel(l), zstd.WithEncoderConcurrency(1))
+	if err != nil {
+		panic("verif harness: zstd encoder: " + err.Error())
+	}
+	vf10Encs[l] = e
+	return e
+}
+
+// vf10FrameShape describes how raw bytes become a zstd frame.
+type vf10FrameShape struct {
+	level  zstd.EncoderLevel
+	blocks string // "" = one-shot (EncodeAll); otherwise the class of the piece lengths after the first piece
+	first  int    // raw length of the first piece (>= NonPayloadFieldsBufferLength)
+	seed   uint64 // piece lengths are drawn from this, so that re-encoding while aiming keeps the shape
+}
+
+func (s vf10FrameShape) String() string {
+	if s.blocks == "" {
+		return fmt.Sprintf("one-shot/%v", s.level)
+	}
+	return fmt.Sprintf("blocks:first>=NPFBL,then-%s/%v", s.blocks, s.level)
+}
+
+func (s vf10FrameShape) encode(raw []byte) []byte {
+	enc := vf10EncOf(s.level)
+	if s.blocks == "" {
+		return enc.EncodeAll(raw, nil)
+	}
+	vf10EncMu.Lock()
+	defer vf10EncMu.Unlock()
+	var out bytes.Buffer
+	enc.Reset(&out)
+	prng := rand.New(rand.NewPCG(s.seed, 10))
+	piece := s.first
+	for len(raw) > 0 {
+		n := min(piece, len(raw))
+		_, _ = enc.Write(raw[:n])
+		_ = enc.Flush() // ends the block
+		raw = raw[n:]
+		switch s.blocks {
+		case "small":
+			piece = 200 + prng.IntN(2800)
+		case "medium":
+			piece = 3000 + prng.IntN(17000)
+		case "large":
+			piece = 20000 + prng.IntN(111000)
+		default: // mixed
+			piece = []int{1 + prng.IntN(200), 200 + prng.IntN(2800), 3000 + prng.IntN(17000), 20000 + prng.IntN(111000)}[prng.IntN(4)]
+		}
+	}
+	_ = enc.Close()
+	return bytes.Clone(out.Bytes())
+}
+
+// vf10ZstdBlockEnds returns the offsets at which the blocks of the (first) zstd frame in b
+// end (format of RFC 8878); nil if b cannot be walked.  Evidence only.
+func vf10ZstdBlockEnds(b []byte) []int {
+	if !vf10IsZstd(b) || len(b) < 6 {
+		return nil
+	}
+	fhd := b[4]
+	pos := 5
+	single := fhd&0x20 != 0
+	if !single {
+		pos++ // window descriptor
+	}
+	pos += []int{0, 1, 2, 4}[fhd&3] // dictionary ID
+	switch fhd >> 6 {               // frame content size
+	case 0:
+		if single {
+			pos++
+		}
+	case 1:
+		pos += 2
+	case 2:
+		pos += 4
+	default:
+		pos += 8
+	}
+	var ends []int
+	for pos+3 <= len(b) {
+		h := int(b[pos]) | int(b[pos+1])<<8 | int(b[pos+2])<<16
+		pos += 3
+		sz := h >> 3
+		if (h>>1)&3 == 1 { // RLE block: one byte of content
+			sz = 1
+		}
+		pos += sz
+		if pos > len(b) {
+			return nil
+		}
+		ends = append(ends, pos)
+		if h&1 == 1 {
+			break
+		}
+	}
+	return ends
+}
+
+// vf10Compressible returns n bytes which zstd shrinks by roughly the given factor: cells of
+// 64..512 bytes whose first 1/ratio is random and whose rest is one filler byte.
+func vf10Compressible(rng *rand.Rand, n, ratio int) []byte {
+	b := make([]byte, n)
+	cell := 64 << rng.IntN(4)
+	q := max(cell/ratio, 1)
+	var fill byte
+	if rng.IntN(2) == 0 {
+		fill = byte(rng.Uint32())
+	}
+	for i := 0; i < n; i += cell {
+		for j := 0; j < cell && i+j < n; j++ {
+			if j < q {
+				b[i+j] = byte(rng.Uint32())
+			} else {
+				b[i+j] = fill
+			}
+		}
+	}
+	return b
+}
+
+// vf10BuildZframe makes an object for addr and its compressed form of (about) wantComp bytes.
+func vf10BuildZframe(rng *rand.Rand, addr oid.Address, wantComp int) (raw, comp []byte, hdrLen int, shape vf10FrameShape, ratio int) {
+	const rawCap = 300 << 10
+	ratio = []int{2, 4, 7, 7, 10, 10, 10, 16, 16, 30}[rng.IntN(10)]
+	shape.level = []zstd.EncoderLevel{zstd.SpeedFastest, zstd.SpeedDefault, zstd.SpeedDefault, zstd.SpeedBetterCompression}[rng.IntN(4)]
+	if rng.IntN(10) < 6 {
+		shape.blocks = []string{"small", "small", "medium", "large", "mixed"}[rng.IntN(5)]
+		shape.first = vf10NPFBL + []int{0, 1, rng.IntN(vf10NPFBL), rng.IntN(5 * vf10NPFBL)}[rng.IntN(4)]
+		shape.seed = rng.Uint64()
+	}
+	hk := rng.IntN(4)
+	pool := vf10Compressible(rng, rawCap, ratio)
+	tailPool := verifkit.RandBytes(rng, 48<<10)
+	bodyLen := min(wantComp*ratio, rawCap)
+	tail := 64 + rng.IntN(200)
+	build := func() {
+		payload := append(bytes.Clone(pool[:bodyLen]), tailPool[:tail]...)
+		obj, hl := vf10MkObj(addr, hk, len(payload))
+		obj.SetPayload(payload)
+		raw, hdrLen = obj.Marshal(), hl
+		comp = shape.encode(raw)
+	}
+	for range 7 {
+		build()
+		d := wantComp - len(comp)
+		if d == 0 {
+			break
+		}
+		if d > 1500 || d < -1500 || tail+d < 0 || tail+d > len(tailPool) {
+			// far off: scale the compressible body by the ratio observed
+			nb := bodyLen + d*len(raw)/max(len(comp), 1)
+			if nb = max(min(nb, rawCap), 0); nb != bodyLen {
+				bodyLen = nb
+				continue
+			}
+		}
+		tail = max(min(tail+d, len(tailPool)), 0) // incompressible tail: one byte more or less on disk per byte
+	}
+	build()
+	return
+}
+
+// withOneCPU runs f while the process is limited to one CPU, as on a single-CPU host
+// (libraries pick their degree of concurrency from it when a reader is created).
+func vf10WithOneCPU(f func()) {
+	defer runtime.GOMAXPROCS(runtime.GOMAXPROCS(1))
+	f()
+}
+
+func (c *vf10Case) opZframes() {
+	if c.zrng == nil {
+		return
+	}
+	saved := c.rng
+	c.rng = c.zrng // own stream: the main history of the case does not depend on these objects
+	defer func() { c.rng = saved }()
+	rng := c.rng
+
+	cnr := verifkit.RandCID(rng)
+	newItem := func() *vf10Item {
+		if rng.IntN(3) == 0 {
+			cnr = verifkit.RandCID(rng)
+		}
+		return &vf10Item{addr: oid.NewAddress(cnr, verifkit.RandOID(rng))}
+	}
+	var (
+		its    []*vf10Item
+		datas  [][]byte
+		stored [][]byte
+		notes  []string
+		zf     []bool
+	)
+	for range 2 {
+		var want int
+		switch k := rng.IntN(100); {
+		case k < 5:
+			want = vf10NPFBL - 1 - rng.IntN(40)
+		case k < 13:
+			want = vf10NPFBL
+		case k < 21:
+			want = vf10NPFBL + 1
+		case k < 30:
+			want = vf10NPFBL + 2 + rng.IntN(200)
+		case k < 58:
+			want = vf10NPFBL + rng.IntN(vf10NPFBL)
+		case k < 67:
+			want = 2*vf10NPFBL - 1 + rng.IntN(3)
+		default:
+			want = 2*vf10NPFBL + rng.IntN(3*vf10NPFBL)
+		}
+		it := newItem()
+		raw, comp, hl, shape, ratio := vf10BuildZframe(rng, it.addr, want)
+		it.variants[0], it.hdrLen[0] = raw, hl
+		its, datas, stored, zf = append(its, it), append(datas, raw), append(stored, comp), append(zf, true)
+		ends := vf10ZstdBlockEnds(comp)
+		inside := 0
+		for _, e := range ends {
+			if e < vf10NPFBL {
+				inside++
+			}
+		}
+		notes = append(notes, fmt.Sprintf("%s ratio~%d raw=%d compressed=%d(aimed %d) blocks=%d ending-inside-first-%d=%d", shape, ratio, len(raw), len(comp), want, len(ends), vf10NPFBL, inside))
+		c.r.Count("zframe_objects", 1)
+		c.r.Seen("zframe_shapes", shape.String())
+		c.r.Seen("zframe_compressed_length_classes", vf10LenClass(len(comp)))
+		c.r.Seen("zframe_ratios", fmt.Sprint(ratio))
+		c.r.Max("zframe_max_blocks", int64(len(ends)))
+		if len(comp) >= vf10NPFBL { // the streaming decoder is used
+			c.r.Count("zframe_streamed", 1)
+			if inside > 0 && len(comp) > vf10NPFBL {
+				c.r.Count("zframe_streamed_with_block_border_inside_preread_prefix", 1)
+				c.r.Max("zframe_max_block_borders_inside_preread_prefix", int64(inside))
+				if inside > 8 {
+					c.r.Count("zframe_streamed_with_more_block_borders_inside_preread_prefix_than_a_decoder_reads_ahead", 1)
+				}
+			}
+		}
+	}
+	mode := []string{"put", "put", "putbatch", "planted", "planted"}[rng.IntN(5)]
+	if mode == "planted" {
+		// members around them: small ones, and now and then one longer than the read window in front
+		for n := rng.IntN(3); n > 0; n-- {
+			it := newItem()
+			l := 40 + rng.IntN(30000)
+			if rng.IntN(4) == 0 {
+				l = vf10NPFBL + 1 + rng.IntN(vf10NPFBL)
+			}
+			d, hl := vf10Build(rng, it.addr, rng.IntN(4), l)
+			it.variants[0], it.hdrLen[0] = d, hl
+			its, datas, stored, zf, notes = append(its, it), append(datas, d), append(stored, d), append(zf, false), append(notes, "filler")
+		}
+		rng.Shuffle(len(its), func(i, j int) {
+			its[i], its[j] = its[j], its[i]
+			datas[i], datas[j] = datas[j], datas[i]
+			stored[i], stored[j] = stored[j], stored[i]
+			zf[i], zf[j] = zf[j], zf[i]
+			notes[i], notes[j] = notes[j], notes[i]
+		})
+	}
+	lens := make([]int, len(its))
+	for i := range its {
+		lens[i] = len(datas[i])
+	}
+	c.log("zframes", its, lens, fmt.Sprintf("mode=%s %v", mode, notes))
+
+	switch mode {
+	case "planted":
+		if !c.plantCombined(its, stored) {
+			return
+		}
+	case "putbatch":
+		batch := make(map[oid.Address][]byte, len(its))
+		for i, it := range its {
+			batch[it.addr] = stored[i]
+		}
+		var err error
+		if c.r.Guard(c.steps[len(c.steps)-1], func() { err = c.fs.PutBatch(batch) }) {
+			c.bad = true
+			return
+		}
+		if err != nil {
+			c.violation("PutBatch", "error", its[0].addr, "batch put on a healthy store failed: "+err.Error())
+			return
+		}
+	default:
+		for i, it := range its {
+			var err error
+			if c.r.Guard(c.steps[len(c.steps)-1], func() { err = c.fs.Put(it.addr, stored[i]) }) {
+				c.bad = true
+				return
+			}
+			if err != nil {
+				c.violation("Put", "error", it.addr, "put of a healthy store failed: "+err.Error())
+				return
+			}
+		}
+	}
+	for i, it := range its {
+		c.model[it.addr] = datas[i]
+		c.byAdr[it.addr] = it
+	}
+	defer func() {
+		c.vsalt = 0
+		for _, it := range its {
+			delete(c.byAdr, it.addr)
+		}
+	}()
+	c.r.Count("zframe_stores_"+mode, 1)
+	c.groupStats(its)
+
+	for i, it := range its {
+		f, dl := c.formatLen(it.addr)
+		c.r.Seen("formats_on_disk", f)
+		if zf[i] {
+			c.r.Seen("zframe_formats_on_disk", f)
+			c.r.Distinct(fmt.Sprintf("%s|zframe|%s|%s|disk%s", c.cfg, mode, f, vf10LenClass(dl)))
+		}
+		// all CPUs the process has, then one CPU (other ways of draining the streams)
+		c.vsalt = 0
+		c.verify(it.addr, true)
+		c.r.Count("zframe_reads_on_all_cpus", 1)
+		c.r.Seen("zframe_gomaxprocs_during_reads", fmt.Sprint(runtime.GOMAXPROCS(0)))
+		if c.bad {
+			return
+		}
+		c.vsalt = 0x9e3779b97f4a7c15
+		vf10WithOneCPU(func() {
+			c.verify(it.addr, true)
+			c.r.Seen("zframe_gomaxprocs_during_reads", fmt.Sprint(runtime.GOMAXPROCS(0)))
+		})
+		c.r.Count("zframe_reads_on_one_cpu", 1)
+		if c.bad {
+			return
+		}
+	}
+	c.vsalt = 0
+	c.verifyIterations()
+
+	// delete them one by one (seeded order); the survivors keep their bytes
+	order := rng.Perm(len(its))
+	for n, oi := range order {
+		it := its[oi]
+		c.log("delete", []*vf10Item{it}, nil, fmt.Sprintf("zframes object, %d left", len(order)-n-1))
+		var err error
+		if c.r.Guard(c.steps[len(c.steps)-1], func() { err = c.fs.Delete(it.addr) }) {
+			c.bad = true
+			return
+		}
+		if err != nil {
+			c.violation("Delete", "error-for-stored", it.addr, err.Error())
+			return
+		}
+		delete(c.model, it.addr)
+		c.r.Count("delete_ok", 1)
+		c.verify(it.addr, true)
+		if left := order[n+1:]; len(left) > 0 {
+			s := its[left[rng.IntN(len(left))]]
+			if rng.IntN(2) == 0 {
+				vf10WithOneCPU(func() { c.verify(s.addr, true) })
+			} else {
+				c.verify(s.addr, true)
+			}
+			c.r.Count("survivor_reads_after_zframes_delete", 1)
+		}
+		if c.bad {
+			return
+		}
+	}
+	c.verifyIterations()
+}
+
 // opSmall runs n operations of the ordinary kinds whose addresses are mostly taken from the
 // small part of the universe (own random stream), so that files and combined members
 // shorter than the combined prefix are written in every on-disk format, share combined
@@ -1514,6 +1934,10 @@ func (c *vf10Case) opSmall(n int) {
 }
 
 func (c *vf10Case) run(nOps int) {
+	if c.cfg.Procs > 0 { // the whole case runs as on a host with that many CPUs
+		defer runtime.GOMAXPROCS(runtime.GOMAXPROCS(c.cfg.Procs))
+	}
+	c.r.Seen("gomaxprocs_of_cases", fmt.Sprint(runtime.GOMAXPROCS(0)))
 	c.open()
 	defer func() { _ = c.fs.Close() }()
 	c.vseed = c.rng.Uint64()
@@ -1524,6 +1948,9 @@ func (c *vf10Case) run(nOps int) {
 		c.opAligned()
 	}
 	c.opSmall(6)
+	if !c.bad {
+		c.opZframes()
+	}
 	for i := 0; i < nOps && !c.bad; i++ {
 		switch k := c.rng.IntN(100); {
 		case k < 22:
@@ -1549,6 +1976,9 @@ func (c *vf10Case) run(nOps int) {
 		}
 		if i%16 == 3 {
 			c.opSmall(4) // while other objects are stored
+		}
+		if i%max(c.zstep, 1) == 7 && !c.bad {
+			c.opZframes() // while other objects are stored
 		}
 		c.r.Max("max_stored_at_once", int64(len(c.model)))
 	}
@@ -1592,11 +2022,12 @@ func vf10Configs(r *verifkit.Run) []vf10Cfg {
 func TestVerif_C10(t *testing.T) {
 	r := verifkit.Start(t, "C10", "exploration")
 	defer r.Finish()
-	r.SetRule("one case = one FSTree configuration (depth 0-4 x combined count limit 1/2/8/128 x size limit x threshold x linux/generic writer) with a seeded sequence of put / concurrent puts / PutBatch / delete / seeded zstd file / seeded combined file over 20 addresses (two byte variants each, lengths aimed at 38, NonPayloadFieldsBufferLength, twice that, the combined threshold and size limit, up to 256KiB), plus, at the start and every 16th step, a border-aligned combined file (hand-built or PutBatch of equal-length members; member lengths computed so that later prefixes start 0..39+ bytes before multiples of the 20480/40960/4096/32768-byte read window) whose members are read and then deleted one by one, and bursts of the same operations (plus hand-written uncompressed single files) over 8 more addresses holding small objects without ID whose raw or zstd length is aimed at 3..37, 38, 39 and a little more, or whose raw form is long while the zstd frame is shorter than the 38-byte combined prefix; after every step all read APIs are compared with a Go map; distinct = (configuration, op kind, on-disk format of the touched address, length class of the bytes, length class of what they occupy on disk)")
+	r.SetRule("one case = one FSTree configuration (depth 0-4 x combined count limit 1/2/8/128 x size limit x threshold x linux/generic writer) with a seeded sequence of put / concurrent puts / PutBatch / delete / seeded zstd file / seeded combined file over 20 addresses (two byte variants each, lengths aimed at 38, NonPayloadFieldsBufferLength, twice that, the combined threshold and size limit, up to 256KiB), plus, at the start and every 16th step, a border-aligned combined file (hand-built or PutBatch of equal-length members; member lengths computed so that later prefixes start 0..39+ bytes before multiples of the 20480/40960/4096/32768-byte read window) whose members are read and then deleted one by one, and bursts of the same operations (plus hand-written uncompressed single files) over 8 more addresses holding small objects without ID whose raw or zstd length is aimed at 3..37, 38, 39 and a little more, or whose raw form is long while the zstd frame is shorter than the 38-byte combined prefix, and (at the start and every 16th step) two compressed objects whose zstd form is aimed at lengths around and beyond NonPayloadFieldsBufferLength with compressibility 2:1..30:1 and a chosen block structure (one-shot or many blocks after a first block of >= 20480 raw bytes), stored by Put/PutBatch or in a hand-built combined file and read through every API with all CPUs and with GOMAXPROCS=1 (a quarter of the cases runs entirely with GOMAXPROCS=1); after every step all read APIs are compared with a Go map; distinct = (configuration, op kind, on-disk format of the touched address, length class of the bytes, length class of what they occupy on disk)")
 	r.Assume("an address is never re-put with different bytes while it is stored (content addressing); it may be re-put with other bytes after deletion")
 	all := vf10Configs(r)
 	nCfg := r.Pick(30, len(all))
 	nOps := r.Pick(45, 150)
+	zStep := r.Pick(16, 32) // 4 resp. 6 calls of opZframes per case (they are the most expensive steps)
 	order := r.Rand("cfg-order", 0).Perm(len(all))
 	for i := 0; i < nCfg; i++ {
 		cfg := all[order[i%len(all)]]
@@ -1608,7 +2039,10 @@ func TestVerif_C10(t *testing.T) {
 		if rng.IntN(3) == 0 {
 			cfg.IntervalMs = 1 + rng.IntN(3)
 		}
-		c := &vf10Case{r: r, t: t, idx: i, cfg: cfg, rng: rng, arng: r.Rand("aligned", i), srng: r.Rand("small", i), model: map[oid.Address][]byte{}, byAdr: map[oid.Address]*vf10Item{}}
+		if r.Rand("procs", i).IntN(4) == 0 {
+			cfg.Procs = 1
+		}
+		c := &vf10Case{r: r, t: t, idx: i, cfg: cfg, rng: rng, arng: r.Rand("aligned", i), srng: r.Rand("small", i), zrng: r.Rand("zframes", i), zstep: zStep, model: map[oid.Address][]byte{}, byAdr: map[oid.Address]*vf10Item{}}
 		r.Guard(map[string]any{"case": i, "cfg": cfg}, func() { c.run(nOps) })
 		r.Eval(1)
 		r.Count("steps_executed", len(c.steps))
@@ -1626,6 +2060,9 @@ func TestVerif_C10(t *testing.T) {
 		if r.Violations() == 0 && r.Counter("stored_shorter_than_prefix_on_disk_"+f) == 0 {
 			r.Inconclusive("workload never stored an object that occupies fewer bytes on disk than the combined prefix in format " + f)
 		}
+	}
+	if r.Violations() == 0 && (r.Counter("zframe_streamed_with_block_border_inside_preread_prefix") == 0 || r.Counter("zframe_reads_on_one_cpu") == 0 || r.Counter("zframe_streamed_with_more_block_borders_inside_preread_prefix_than_a_decoder_reads_ahead") == 0) {
+		r.Inconclusive("workload never streamed a compressed object of at least NonPayloadFieldsBufferLength compressed bytes whose first zstd blocks end inside the pre-read prefix (on one CPU and on all CPUs)")
 	}
 	if r.Violations() == 0 && (r.Counter("aligned_prefixes_straddling_a_border") == 0 || r.Counter("aligned_files_planted") == 0) {
 		r.Inconclusive("workload never produced a combined file with a member prefix straddling a read-window border")
